@@ -93,7 +93,12 @@ pub fn dispatch(p: &[String]) -> String {
         "operand_requires" => generated::operand_requires(&p[1], p[2].parse::<u32>().unwrap_or(0)),
         "builder_ids" => generated::builder_ids(&p[1], p[2].parse::<u32>().unwrap_or(2), p[3].parse::<u32>().unwrap_or(5), p.len() > 4 && p[4] == "implicit"),
         "builder_roundtrip" => generated::builder_roundtrip(&p[1]),
-        "builder_call" => generated::builder_call(&p[1], p[2].parse::<u32>().unwrap_or(2)),
+        "builder_call" => {
+            generated::set_ip(if p.len() > 3 { p[3].parse::<u32>().unwrap_or(0) } else { 0 });
+            let r = generated::builder_call(&p[1], p[2].parse::<u32>().unwrap_or(2));
+            generated::set_ip(0);
+            r
+        }
         "scenario" => {
             let raw = unhex(if p.len() > 2 { &p[2] } else { "" });
             match vscen::run(&p[1], &raw) {
@@ -128,6 +133,21 @@ pub fn dispatch(p: &[String]) -> String {
             }
         }
         "typed_request" => generated::typed_request(&p[1], p[2].parse::<u64>().unwrap_or(0) as u32),
+        "builder_set_version" => {
+            // builder_set_version <0|1>: set_version(1,5) on a fresh builder, or after an earlier set_version(1,0) + new_from_module
+            use rspirv::binary::Assemble;
+            let mut b = rspirv::dr::Builder::new();
+            if p[1] == "1" {
+                b.set_version(1, 0);
+                let m = b.module();
+                b = rspirv::dr::Builder::new_from_module(m);
+            }
+            b.set_version(1, 5);
+            let m = b.module();
+            let words = m.assemble();
+            let v = m.header.as_ref().map(|h| h.version());
+            format!("{{\"version\": {}, \"word\": {}}}", v.map_or("null".to_string(), |(a, c)| format!("[{}, {}]", a, c)), words.get(1).copied().unwrap_or(0))
+        }
         "storage_step" => storage_step(&p[1], if p.len() > 2 { &p[2] } else { "-" }),
         "lift_probe" => generated::lift_probe(p[1].parse::<u32>().unwrap_or(0)),
         "disas_operand" => generated::disas_operand(&p[1], p[2].parse::<u64>().unwrap_or(0)),
